@@ -71,6 +71,8 @@ COPIES = [
     ("reamber.algorithms.osu.hitsound_copy.hitsound_copy", "copy of the target"),
     ("reamber.base.lists.TimedList.TimedList.move_start_to", "moved copy"),
     ("reamber.base.lists.TimedList.TimedList.move_end_to", "moved copy"),
+    ("reamber.base.lists.TimedList.TimedList.append", "new list (pd.concat of self and the appended value)"),
+    ("reamber.base.lists.TimedList.TimedList.sorted", "new list (sort_values)"),
 ]
 
 
